@@ -179,3 +179,18 @@ Proof. intros R.
   split; [exact NI|]. intros e1 e2 e3.
   pose proof (run_modes junk cstate codec2_encode dest source (completion (st_mode s') e1 e2 e3) s') as RC.
   rewrite completion_idle in RC by exact NI. exact RC. Qed.
+
+(** ** the consumer's view: modulator + blocking output queue + consumer of arbitrary speed *)
+Theorem consumer_receives_stream junk cstate codec2_encode : codec2_ok codec2_encode ->
+  forall dst src, callsigns_ok dst src ->
+  forall c0 sched s' out,
+  run junk cstate codec2_encode (encode_callsign dst) (encode_callsign src) (minit junk cstate c0) sched = Some (s', out) ->
+  st_mode s' = IDLE ->
+  forall policy, policy = Blocks -> forall trace,
+  drained (qrun policy ConstsModulator.bitstream_queue_capacity out trace) ->
+  exists kus trailing, Forall keyup_ok kus /\ sched = session_items kus trailing
+    /\ delivered (qrun policy ConstsModulator.bitstream_queue_capacity out trace) = snd (session_stream cstate codec2_encode dst src c0 kus).
+Proof. intros Hc dst src Hs c0 sched s' out R M policy HP trace D.
+  destruct (stream_wellformed junk cstate codec2_encode Hc dst src Hs c0 sched s' out R M) as [kus [trailing [K [S [O _]]]]].
+  exists kus, trailing. split; [exact K|]. split; [exact S|].
+  destruct (no_byte_lost ConstsModulator.bitstream_queue_capacity policy HP out trace) as [_ H]. rewrite (H D). exact O. Qed.
